@@ -139,7 +139,7 @@ def generate(seed, tier="quick"):
     cond_keys = [str(k) for k in rnd.sample(range(1, 1000), rnd.randint(2, 6))] + [str(rnd.randint(2000, 2499))]
     package_keys = [f"{k}P" for k in rnd.sample(range(1, 1000), rnd.randint(2, 5))]
     if rnd.random() < 0.1:  # INT allows leading zeros and zero
-        cond_keys.append(rnd.choice(["007", "0", "0932"]))
+        cond_keys.append(rnd.choice(["007", "0932", "0042"]))
         package_keys.append(rnd.choice(["01P", "0P", "0010P"]))
     big = tier == "thorough" and seed % 4 == 0  # deeper bounds for a quarter of the thorough runs
     n_requests = rnd.choice([2, 3, 4, 5] if big else [1, 1, 1, 2, 2, 3])
@@ -198,9 +198,8 @@ def execute(scenario):
         if not expect_missing:
             substituted = substitute(op["expr"], available, do_packages, do_time)
             reference = pristine(_reference, scenario, request["rid"], substituted)
-            if "ok" not in reference:
-                # the substituted text must itself be well-formed; if not, the generator (not ahbicht) is at fault
-                raise RuntimeError(f"reference parse failed for {substituted!r}")
+            # (if the library rejects the substituted text, it must reject the abbreviated one in the same way: the
+            # two outcomes are compared like any others)
         plans[request["rid"]] = (expect_missing, reference, substituted, used, available)
     try:
         sim, outcomes = run_requests(scenario, do_op)
